@@ -267,6 +267,8 @@ fn parse_ex_command(chars: &mut Peekable<Chars<'_>>) -> Result<Option<Verb>,Opti
 	}
 
 	match cmd_name.as_str() {
+		// A bare address: go to that line
+		"" => Ok(None),
 		"!" => {
 			let cmd = chars.collect::<String>();
 			let cmd = unescape_shell_cmd(&cmd);
